@@ -265,9 +265,9 @@ def prov_to_dot(
                     # the main node text, whereas the identifier will be a
                     # kind of subtitle.
                     node_label = (
-                        f"<{record.label}<br />"
+                        f"<{escape(str(record.label))}<br />"
                         f'<font color="#333333" point-size="10">'
-                        f'{record.identifier}</font>>'
+                        f'{escape(str(record.identifier))}</font>>'
                     )
             else:
                 node_label = f'"{record.identifier}"'
